@@ -157,6 +157,9 @@ func c09Alphabet(thorough bool) []string {
 		a = append(a, "unbind:"+v[0]+":"+v[1]+":"+v[2]+":d")
 	}
 	a = append(a, "unbind:A:e1f3:L1ms:d", "unbind:A:e1f1:L1lc:n", "unbind:A:e1f9:L1lc:d", "unbind:A:e1f1:L1x:d", "unbind:B:e2f2:L2lc:d")
+	// a delete whose client address names the other peer's device (same entity and feature numbers):
+	// it addresses no binding of the sender and must not touch the other peer's binding
+	a = append(a, "unbind:B:e1f1:L1lc:x", "unbind:A:e1f1:L2lc:x")
 	// a write shows that authorisation follows the registry (C03 owns the details)
 	a = append(a, "write:A:e1f1:L1lc:limit:ack:2", "write:B:e1f1:L2lc:limit:ack:2")
 	return a
